@@ -74,6 +74,14 @@ func (w *Writer) GetCollectedImports() []ImportSpec {
 	return w.typeConverter.Imports()
 }
 
+// kessokuIdent names the kessoku package the way the output imports it.
+func (w *Writer) kessokuIdent() *ast.Ident {
+	if w.typeConverter != nil {
+		return ast.NewIdent(w.typeConverter.kessokuName)
+	}
+	return ast.NewIdent(kessokuImportName)
+}
+
 // typeToExpr converts a types.Type to ast.Expr using the type converter if available.
 func (w *Writer) typeToExpr(t types.Type) ast.Expr {
 	if w.typeConverter != nil {
@@ -280,7 +288,7 @@ func (w *Writer) setToDecl(ks *KessokuSet) *ast.GenDecl {
 
 	setCall := &ast.CallExpr{
 		Fun: &ast.SelectorExpr{
-			X:   ast.NewIdent("kessoku"),
+			X:   w.kessokuIdent(),
 			Sel: ast.NewIdent("Set"),
 		},
 		Lparen: token.Pos(lineOffsetBytes),
@@ -321,7 +329,7 @@ func (w *Writer) provideToExpr(kp *KessokuProvide) ast.Expr {
 	}
 	return &ast.CallExpr{
 		Fun: &ast.SelectorExpr{
-			X:   ast.NewIdent("kessoku"),
+			X:   w.kessokuIdent(),
 			Sel: ast.NewIdent("Provide"),
 		},
 		Args: []ast.Expr{funcExpr},
@@ -339,7 +347,7 @@ func (w *Writer) bindToExpr(kb *KessokuBind) ast.Expr {
 	// Build the index expression for type parameter
 	indexExpr := &ast.IndexExpr{
 		X: &ast.SelectorExpr{
-			X:   ast.NewIdent("kessoku"),
+			X:   w.kessokuIdent(),
 			Sel: ast.NewIdent("Bind"),
 		},
 		Index: typeExpr,
@@ -365,7 +373,7 @@ func (w *Writer) valueToExpr(kv *KessokuValue) ast.Expr {
 	clearPos(expr)
 	return &ast.CallExpr{
 		Fun: &ast.SelectorExpr{
-			X:   ast.NewIdent("kessoku"),
+			X:   w.kessokuIdent(),
 			Sel: ast.NewIdent("Value"),
 		},
 		Args: []ast.Expr{expr},
@@ -398,7 +406,7 @@ func (w *Writer) injectToDecl(ki *KessokuInject) *ast.GenDecl {
 	injectCall := &ast.CallExpr{
 		Fun: &ast.IndexExpr{
 			X: &ast.SelectorExpr{
-				X:   ast.NewIdent("kessoku"),
+				X:   w.kessokuIdent(),
 				Sel: ast.NewIdent("Inject"),
 			},
 			Index: typeExpr,
